@@ -30,7 +30,11 @@ const NUsers = 6
 
 var Denoms = []string{"denoma", "denomb", "denomc", "denomd", "stake"}
 
-const T0 = int64(1893456000) // 2030-01-01T00:00:00Z
+// T0 is the time of the first block of a history: 2030-01-01T00:00:00Z, or - for every seventh history - 2001-09-09:
+// a chain whose whole history lies in the past of the machine that executes it (a node that replays old blocks)
+var T0 = int64(1893456000)
+
+const tFuture, tPast = int64(1893456000), int64(1000000000)
 
 type Xfer struct {
 	From, To string
